@@ -54,7 +54,7 @@ const (
 	// emptyTagPattern matches netconf empty tags to allow
 	// forcing of self-closing tags.
 	// See https://regex101.com/r/rmsS2E/3.
-	emptyTagPattern = `<([^>/]+?)(\s+[^>]+?)?>\s*</([\w-]+)>`
+	emptyTagPattern = `<([^>/]+?)(\s+[^>]*?[^>/])?>\s*</([\w-]+)>`
 
 	defaultNamespace = "urn:ietf:params:xml:ns:yang:ietf-netconf-with-defaults"
 
